@@ -43,7 +43,7 @@ EXT_POOL = trees.EXTERNALS + ["dup.dup", "twice.twice.x", "projx.y", "proj_other
 
 
 def plan(tier, seed):
-    return [{"kind": "trees", "n": 40 if tier == "quick" else 320} for _ in range(10 if tier == "quick" else 16)]
+    return [{"kind": "trees", "n": 40 if tier == "quick" else 1500} for _ in range(10 if tier == "quick" else 16)]
 
 
 def run_shard(spec, acc):
